@@ -49,9 +49,9 @@ def build_cases(ctx):
     rng = random.Random(ctx.seed * 104729 + 15)
     cases = G.small_exhaustive()
     n_ex = len(cases)
-    cases += G.fallthrough_family(rng, ctx.pick(1200, 12000))
+    cases += G.fallthrough_family(rng, ctx.pick(1200, 6000))
     n_ft = len(cases) - n_ex
-    for _ in range(ctx.pick(1000, 40000)):
+    for _ in range(ctx.pick(1000, 15000)):
         cases.append(G.random_case(rng))
     seen, out = set(), []
     for c in cases:
